@@ -5,3 +5,5 @@ pub mod types;
 pub mod ops;
 pub mod program;
 pub mod gen;
+pub mod multi;
+pub mod multi_catalogue;
